@@ -17,6 +17,8 @@ import (
 	api "github.com/kubeflow/katib/pkg/apis/manager/v1beta1"
 	"github.com/kubeflow/katib/pkg/controller.v1beta1/suggestion/suggestionclient"
 	"google.golang.org/grpc"
+	"google.golang.org/grpc/codes"
+	"google.golang.org/grpc/status"
 	metav1 "k8s.io/apimachinery/pkg/apis/meta/v1"
 )
 
@@ -26,10 +28,19 @@ type pointsClient struct {
 	kind  string // ok | short | long | error
 	named bool   // the service names the assignments itself
 	seq   int
+	calls int
+	// what the last request asked for
+	lastCur, lastTot int32
+	asked            bool
 }
 
 func (c *pointsClient) GetSuggestions(ctx context.Context, in *api.GetSuggestionsRequest, opts ...grpc.CallOption) (*api.GetSuggestionsReply, error) {
+	c.asked, c.lastCur, c.lastTot = true, in.CurrentRequestNumber, in.TotalRequestNumber
+	c.calls++
 	if c.kind == "error" {
+		if cd := []codes.Code{codes.Unknown, codes.DeadlineExceeded, codes.Internal, codes.Unavailable}[c.calls%4]; cd != codes.Unknown {
+			return nil, status.Error(cd, "algorithm service unavailable")
+		}
 		return nil, fmt.Errorf("algorithm service unavailable")
 	}
 	n := int(in.CurrentRequestNumber)
@@ -65,6 +76,10 @@ type rulesClient struct {
 
 func (c *rulesClient) GetEarlyStoppingRules(ctx context.Context, in *api.GetEarlyStoppingRulesRequest, opts ...grpc.CallOption) (*api.GetEarlyStoppingRulesReply, error) {
 	if c.fail {
+		c.n++
+		if cd := []codes.Code{codes.Unknown, codes.DeadlineExceeded, codes.Internal, codes.ResourceExhausted, codes.Unavailable}[c.n%5]; cd != codes.Unknown {
+			return nil, status.Error(cd, "early stopping service unavailable")
+		}
 		return nil, fmt.Errorf("early stopping service unavailable")
 	}
 	c.n++
@@ -108,6 +123,9 @@ func init() {
 			for r := 0; r < rounds; r++ {
 				if rng.Intn(5) != 0 {
 					req += int32(1 + rng.Intn(3))
+					if rng.Intn(6) == 0 {
+						req += int32(3 + rng.Intn(6)) // a large step (parallelTrialCount raised a lot)
+					}
 				}
 				pc.kind = pick(rng, []string{"ok", "ok", "ok", "ok", "short", "long", "error"})
 				rc.fail = false
@@ -119,6 +137,7 @@ func init() {
 				tags = append(tags, "reply="+pc.kind)
 				toks = append(toks, fmt.Sprintf("%d %s", req, pc.kind))
 				sg.Spec.Requests = req
+				pc.asked = false
 				before := []suggestionsv1beta1.TrialAssignment{}
 				for _, a := range sg.Status.Suggestions {
 					before = append(before, *a.DeepCopy())
@@ -138,7 +157,11 @@ func init() {
 						sameOld = false
 					}
 				}
-				outs = append(outs, fmt.Sprintf("err=%s count=%d names=%s prefix=%s old=%s", b01(err != nil), sg.Status.SuggestionCount, dashJoin(names), b01(prefixOk), b01(sameOld)))
+				ask := "cur=- tot=-"
+				if pc.asked {
+					ask = fmt.Sprintf("cur=%d tot=%d", pc.lastCur, pc.lastTot)
+				}
+				outs = append(outs, fmt.Sprintf("err=%s count=%d names=%s prefix=%s old=%s %s", b01(err != nil), sg.Status.SuggestionCount, dashJoin(names), b01(prefixOk), b01(sameOld), ask))
 			}
 			impl = strings.Join(outs, " ; ")
 		}()
